@@ -450,8 +450,19 @@ def h_meth(which: int, o0: int, o1: int, o2: int, o3: int):
                     ok = fail("lru_cache:method-discard-did-not-remove-entry", (name, trace)) and ok
                 discarded = True
             else:
-                # discard through the *other* instance must not remove a0's entry of a plain method
-                pass
+                # keyword pattern through the bound attribute: discard removes exactly that pattern
+                r1 = D.call(getattr(a0, name)(x=1))
+                n1 = len(la)
+                getattr(a0, name).cache_discard(x=1)
+                r2 = D.call(getattr(a0, name)(x=1))
+                if maxsize != 0 and len(la) != n1 + 1:
+                    ok = fail("lru_cache:method-keyword-discard-did-not-remove-entry", (name, trace)) and ok
+                n2 = len(la)
+                getattr(a0, name).cache_discard(1)  # a different pattern: must not remove x=1
+                r3 = D.call(getattr(a0, name)(x=1))
+                if maxsize != 0 and len(la) != n2:
+                    ok = fail("lru_cache:method-discard-removed-another-pattern", (name, trace)) and ok
+                discarded = True
             if not discarded:
                 ia = info_a(getattr(a1, name))
                 ib = info_a(getattr(CA, name)) if name != "meth" else info_a(CA.meth)
